@@ -182,3 +182,8 @@ def _b(r):
 
 def describe(plan):
     return {"history": [{"frame": e["f"], "kind": e["k"], "i": e.get("i"), "n": e.get("n")} for e in plan["events"][:25]]}
+
+
+def seam_check():
+    from .common import seam_net, seam_clock, seam_fs
+    return seam_clock()
